@@ -236,9 +236,9 @@ func (fr *Frame) safety(kind string, st *State, goal string, pos token.Pos, text
 	if text == "" {
 		text = fr.opText(pos)
 	}
-	base := kind + ":" + text
+	base := shortFuncName(vc.fn) + "#" + kind + ":" + text
 	if fr.depth > 0 {
-		base = kind + ":" + fr.prefix + text
+		base = shortFuncName(vc.fn) + "#" + kind + ":" + fr.prefix + text
 	}
 	vc.safetyCount[base]++
 	name := base
